@@ -32,8 +32,8 @@ Definition nStart : N := 115.     Definition nEnd : N := 116.       Definition n
 Definition nPlanID : N := 118.    Definition nRegister : N := 119.  Definition nMeta : N := 120.
 Definition nSubmit : N := 121.    Definition nCode : N := 122.
 
-Definition ex (n : N) (v : gv) : fmeta * gv := ({| f_name := n; f_exported := true; f_tag := TNone |}, v).
-Definition unex (n : N) (v : gv) : fmeta * gv := ({| f_name := n; f_exported := false; f_tag := TNone |}, v).
+Definition ex (n : N) (v : gv) : fmeta * gv := ({| f_name := n; f_exported := true; f_embedded := false; f_tag := TNone |}, v).
+Definition unex (n : N) (v : gv) : fmeta * gv := ({| f_name := n; f_exported := false; f_embedded := false; f_tag := TNone |}, v).
 
 Definition uuid_gv : gv := VArray [VNum 7; VNum 7].
 Definition state_gv : gv :=
@@ -186,9 +186,9 @@ Definition render (p : plan_sk) : res (list gv) :=
   end.
 
 (* ---- what the clone entry points are supposed to return: the same skeleton with every payload scrubbed ---- *)
-Definition scrub_attempt (k : attempt_sk) : attempt_sk := {| k_resp := scrub false (k_resp k); k_err := k_err k |}.
+Definition scrub_attempt (k : attempt_sk) : attempt_sk := {| k_resp := scrub (k_resp k); k_err := k_err k |}.
 Definition scrub_action (a : action_sk) : action_sk :=
-  {| a_req := scrub false (a_req a);
+  {| a_req := scrub (a_req a);
      a_attempts := match a_attempts a with None => None | Some l => Some (map scrub_attempt l) end |}.
 Definition scrub_checks_opt (o : option checks_sk) : option checks_sk :=
   match o with None => None | Some c => Some (map scrub_action c) end.
